@@ -48,6 +48,16 @@ def ev(e, env):
             return math.log10(a[0])
         if f in ("fabs", "abs"):
             return abs(a[0])
+        if f == "rint":                 # C: to the nearest integer, halves to even (the default rounding mode)
+            return float(round(a[0]))
+        if f in ("fmax",):
+            return max(a)
+        if f in ("fmin",):
+            return min(a)
+        if f == "fmod":
+            return math.fmod(a[0], a[1])
+        if f == "copysign":
+            return math.copysign(a[0], a[1])
         if f == "max":
             return max(a)
         if f == "min":
